@@ -1,4 +1,64 @@
-"""C08 — not built yet."""
+"""C08 — generated client and processor carry a call end to end (DESIGN.md §5.8, docs/C08.md)."""
+import json, os
+from vlib import core
+
+THEOREMS = ["Props.C08." + t for t in [
+    "template_constants_sound", "msg_roundtrip", "extends_dispatch", "extends_dispatch_step", "call_roundtrip",
+    "handler_sees_args", "unknown_method", "wire_shape_request", "wire_shape_reply", "call_sequence"]]
+
+
 def run(ctx):
-    print("C08: no check built yet")
-    return 2
+    exe = ctx.go_build("c08")
+    ctx.trusted += ["translator harness/cmd/c08 extract (application-exception kinds and message expressions, reply message types, client Call shapes, "
+                    "buildSynthesized names and the success field; regular expressions over templates/processor.go, templates/client.go, scope.go)",
+                    "correspondence: generated services compiled in one batch (harness/internal/batch); interfaces / clients / processors found by go/parser "
+                    "(harness/cmd/c08/scan.go), recording handlers synthesised from the generated interfaces, Client -> TMemoryBuffer <-> Processor in-process "
+                    "(harness/cmd/c08/drvsrc.go.txt) vs tv_c08",
+                    "oracle: harness/internal/refcodec (reference codec) + the harness' own envelope parser (cmd/c08/main.go splitMsg), independent of the model"]
+    ctx.assumptions += ["apache/thrift v0.13.0: TStandardClient (seqid++ per Call, CALL for every request, Recv checks name / seqid / message type), "
+                        "TBinaryProtocol message framing (strict write, non-strict read), tApplicationException.Read/Write, TMemoryBuffer as a byte queue — modelled "
+                        "from their source, validated by the correspondence only",
+                        "protocol Skip modelled as strict untyped decode to depth 64 (as C02)",
+                        "Go type switch on the handler's error picks the throws entry with that dynamic type (thrown types of one function are pairwise distinct, else the code does not compile: BATCH-notes D10)",
+                        "a failing Write (union with ≠ 1 member, duplicate set element, nil union) leaves a truncated message on the queue: outside the theorems, never generated",
+                        "Go reflect + unsafe (seqid start value) in the driver"]
+    ctx.partial += ["call_roundtrip / handler_sees_args state equality of values up to wire normal form (WireEq: same Go value or same encoding): a nil slice inside a struct comes back empty, as for C02",
+                    "AnswerOK (the result object built from the handler's answer is well typed and Write accepts it) and writability of the arguments are hypotheses; "
+                    "the request is always sent as CALL (TStandardClient never uses ONEWAY), which is what wire_shape_request states"]
+    if exe:
+        rc, gen = core.sh([exe, "extract", "-repo", core.REPO])
+        ctx.obligation("translator:c08-extract", rc == 0, gen[-2000:] if rc else "")
+        if rc == 0:
+            ctx.write_generated("C08", gen)
+    built = ctx.lake_build(["ThriftVerif.Props.C08"], "lake-build:Props.C08")
+    drv = ctx.lake_build(["tv_c08"], "lake-build:tv_c08")
+    if built:
+        ctx.audit("C08", THEOREMS)
+        if ctx.tier == "thorough":
+            ctx.leanchecker(["ThriftVerif.Props.C08"])
+    if exe:
+        seed, tier, only = ctx.seed, ctx.tier, None
+        cmd_extra = []
+        if ctx.replay:
+            doc = json.load(open(ctx.replay))
+            seed, tier, only = doc.get("seed", seed), doc.get("tier", tier), doc.get("key")
+            cmd_extra = ["-only", ctx.replay]
+        rc, out = core.sh([exe, "run", "-repo", core.REPO, "-dir", ctx.work, "-seed", str(seed), "-tier", tier] + cmd_extra, timeout=3400)
+        if rc not in (0, 1) or not os.path.exists(os.path.join(ctx.work, "stats.json")):
+            raise core.MachineryError("c08 run failed: " + out[-3000:])
+        st = json.load(open(os.path.join(ctx.work, "stats.json")))
+        dist = st["distribution"]
+        ctx.cov.update(evaluations=st["evaluations"], distinct_nontrivial=st["distinct_nontrivial"], samples=st["samples"] or [],
+                       distribution=dist, programs=sum(v for k, v in dist.items() if k.startswith("unit.options.")))
+        for f in (st.get("oracle_failures") or []):
+            if only and f["key"] != only and not f["key"].startswith(("units-unusable", "service-shape")):
+                continue
+            ctx.add_violation(f["key"], f["what"], f["input"], f["expected"], f["observed"])
+        if drv:
+            ops = os.path.join(ctx.work, "ops.txt")
+            model = ctx.run_model("tv_c08", ops)
+            ctx.diff_lines("c08:Gen.Rpc-vs-generated-code", ops, os.path.join(ctx.work, "impl.txt"), model)
+            if not ctx.cov.get("samples"):
+                ctx.cov["samples"] = [l[:400] for l in open(ops).read().split("\n") if l.startswith(("CALL ", "INJ ", "RECV "))][:5]
+    return ctx.finish(rule="(program, option set, service, method, arguments, scripted handler answer | injected request | canned reply) cases; CALL lines carry "
+                           "1..20 calls on one connection; every op except schema (P/S) and service-table (V) lines is non-trivial; distinct by sha256 of the op line")
